@@ -726,7 +726,7 @@ def process (d3 d12 : Bool) (line : String) : List String :=
       -- negation, copies, joins, meets, differences and refinements involve no rounding: exact for every type
       -- (native bounded integers: the negation of the least value overflows)
       let noRounding := opn != "add" && opn != "sub" && opn != "mul" && opn != "div"
-        && !(t.native.isSome && opn == "neg")
+        && !(t.native.isSome && (opn == "neg" || opn == "cvt"))
       let setOp (modelRes : Iv) (spec : Spec.SI) (exactOp : Bool) (tags : List String)
           (skipModel : Bool) (encl : List String) : List String :=
         let tg := ",".intercalate tags
@@ -769,6 +769,14 @@ def process (d3 d12 : Bool) (line : String) : List String :=
           setOp (negAssign p R I) (Spec.neg sI) true [] false (unSamples sI (fun a => some (-a)) [] "neg")
         else if opn == "assign" then
           setOp (assign p R p I) sI true [] false (unSamples sI (fun a => some a) [] "assign")
+        else if opn == "cvt" then
+          -- `Interval::assign(const From&)` from an interval of another boundary type: `Q` = `Rational_Interval`
+          -- (open bounds stored), `Z` / a native letter = closed integer bounds
+          let srcPol := if opParts.getD 1 "Q" == "Q" then Policy.rational else Policy.integer
+          let Isrc : Iv := match iv with
+            | .iv x => ⟨⟨x.lo.value, srcPol.storeOpen && x.lo.open⟩, ⟨x.hi.value, srcPol.storeOpen && x.hi.open⟩⟩
+            | _ => Iv.empty
+          setOp (assign p R srcPol Isrc) sI true [] false (unSamples sI (fun a => some a) [] "cvt")
         else if opn == "add" then
           setOp (addAssign p R I J) (Spec.add sI sJ) true [] false (binSamples (fun a b => some (a + b)) [])
         else if opn == "sub" then
